@@ -8,7 +8,7 @@
    A client is a ServerClientConnection OBJECT (cid), not an address: reconnecting from the same
    address creates a new one. *)
 From Model Require Import Base SeqNum Wire Conn Server.
-From Proofs Require Import ServerP C10P.
+From Proofs Require Import ServerP C10P ServerRunP.
 Open Scope Z_scope.
 
 (* 1. per client object the handler sees a prefix of  connect . message* . disconnect :
@@ -58,9 +58,7 @@ Print Assumptions C10_disconnect_causes.
 
 (* 5. handler_raise_irrelevant (per call; every handler call of the loop goes through
       call_handler): whether the handler raised changes neither the state nor the event, only the
-      logged line SExc.   [partial: the lifting to whole iterations is structural — srv_step uses the
-      oracle through call_handler only — and is checked by the correspondence run with raising
-      handlers in every event; it is not stated as a theorem over srv_step] *)
+      logged line SExc.   [per call; the lift to whole runs is theorem 5' below] *)
 Theorem C10_handler_raise_irrelevant_call_partial : forall h e s ev,
   fst (call_handler h e s ev) = fst (call_handler (strip h) e s ev) /\
   snd (call_handler (strip h) e s ev) = [SEv ev] /\
@@ -68,10 +66,47 @@ Theorem C10_handler_raise_irrelevant_call_partial : forall h e s ev,
 Proof. exact C10_handler_raise_irrelevant_call_proof. Qed.
 Print Assumptions C10_handler_raise_irrelevant_call_partial.
 
+(* 5'. handler_raise_irrelevant over WHOLE RUNS: for every handler oracle h, environment, settings,
+       blocklist and list of iterations, the life of the thread driven by h and by (strip h) — the
+       same handler that never raises — ends in the SAME server state, and the output trace of the
+       never-raising run is the trace of the raising run with the logged SExc lines filtered out
+       (noexc); in particular the handler sees the same sequence of events (hlog).  Events keep
+       flowing identically whether or not handlers raise. *)
+Theorem C10_handler_raise_irrelevant : forall h e g bl ins,
+  fst (srv_life (strip h) e g bl ins) = fst (srv_life h e g bl ins) /\
+  snd (srv_life (strip h) e g bl ins) = noexc (snd (srv_life h e g bl ins)) /\
+  hlog (snd (srv_life (strip h) e g bl ins)) = hlog (snd (srv_life h e g bl ins)).
+Proof. exact C10_handler_raise_irrelevant_proof. Qed.
+Print Assumptions C10_handler_raise_irrelevant.
+
+(* more generally: two handlers that make the same client.send / client.disconnect calls in every
+   handler call and differ only in WHICH calls raise (any pattern of exceptions, in any event) drive
+   the loop to the same state, the same trace up to the exception lines and the same events *)
+Theorem C10_raise_pattern_irrelevant : forall h1 h2 e g bl ins,
+  (forall n ev, r_acts (h1 n ev) = r_acts (h2 n ev)) ->
+  fst (srv_life h1 e g bl ins) = fst (srv_life h2 e g bl ins) /\
+  noexc (snd (srv_life h1 e g bl ins)) = noexc (snd (srv_life h2 e g bl ins)) /\
+  hlog (snd (srv_life h1 e g bl ins)) = hlog (snd (srv_life h2 e g bl ins)).
+Proof. exact C10_raise_pattern_irrelevant_proof. Qed.
+Print Assumptions C10_raise_pattern_irrelevant.
+
+(* the same from ANY server state (not only the initial one) *)
+Theorem C10_handler_raise_irrelevant_run : forall h e s ins,
+  fst (srv_run (strip h) e s ins) = fst (srv_run h e s ins) /\
+  snd (srv_run (strip h) e s ins) = noexc (snd (srv_run h e s ins)).
+Proof. exact C10_handler_raise_irrelevant_run_proof. Qed.
+Print Assumptions C10_handler_raise_irrelevant_run.
+
+(* (strip h) logs no exception line at all: noexc is the identity on its trace *)
+Theorem C10_strip_never_logs : forall h e g bl ins,
+  noexc (snd (srv_life (strip h) e g bl ins)) = snd (srv_life (strip h) e g bl ins).
+Proof. exact C10_strip_never_logs_proof. Qed.
+Print Assumptions C10_strip_never_logs.
+
 (* 6. tokens (D10): for EVERY urandom stream the token handed out is non-zero, is not the token of
       any connection object in either pool, and is a masked value of the stream
-      [partial: the run-level invariant "pooled objects carry pairwise distinct non-zero tokens" is
-      checked by the oracle at every iteration, not proved] *)
+      [per get_token call; the run-level invariant "pooled objects carry pairwise distinct non-zero
+      tokens, connected ones a non-zero token" is theorem 6' below] *)
 Theorem C10_token_fresh_partial : forall used rand t rest,
   get_token used rand = Some (t, rest) ->
   t <> 0 /\ ~ In t used /\ exists r, In r rand /\ t = mask_token r.
@@ -82,6 +117,46 @@ Theorem C10_tokens_in_use : forall s cl, In cl (s_conns s) \/ In cl (s_temp s) -
   In (c_token (cl_conn cl)) (tokens_in_use s).
 Proof. exact C10_tokens_in_use_proof. Qed.
 Print Assumptions C10_tokens_in_use.
+
+(* 6'. the token invariant at EVERY REACHABLE STATE (after starting() and any list of loop
+       iterations; every handler oracle, urandom stream, datagram batch, clock, stop flag):
+       the connection objects held in the two pools have pairwise different identities, the
+       non-zero tokens among them are pairwise different (NoDup over the pool positions), i.e. two
+       DISTINCT pooled objects never share a non-zero token.   (Token 0 = "no token yet": an object
+       whose hello was refused stays in temp_connections with token 0 and no key until it times
+       out; see C10_temp_token_zero_shared below — such an object can never be promoted.) *)
+Theorem C10_tokens_distinct : forall h e g bl ins,
+  let s := fst (srv_life h e g bl ins) in
+  NoDup (map cl_id (s_conns s ++ s_temp s)) /\
+  NoDup (filter nonzero (tokens_in_use s)) /\
+  (forall cl1 cl2, In cl1 (s_conns s ++ s_temp s) -> In cl2 (s_conns s ++ s_temp s) ->
+     cl_id cl1 <> cl_id cl2 -> c_token (cl_conn cl1) <> 0 -> c_token (cl_conn cl1) <> c_token (cl_conn cl2)).
+Proof. exact C10_tokens_distinct_proof. Qed.
+Print Assumptions C10_tokens_distinct.
+
+(* the invariant behind 6' is inductive: ANY loop iteration from ANY state that satisfies the pool
+   bookkeeping invariant Inv (ServerP) and the token invariant TInv (ServerRunP: every pooled object is
+   server-side and holds a non-zero token once it holds a key; every object of `connections` holds a
+   key; different pooled objects never share a non-zero token) leads to a state that satisfies TInv *)
+Theorem C10_token_invariant_step : forall h e s i phi,
+  Inv s phi -> TInv s -> TInv (fst (srv_step h e s i)).
+Proof. exact C10_token_invariant_step_proof. Qed.
+Print Assumptions C10_token_invariant_step.
+
+(* every object of `connections` (promoted = connected) holds a non-zero token and a session key *)
+Theorem C10_connected_have_token : forall h e g bl ins cl,
+  In cl (s_conns (fst (srv_life h e g bl ins))) ->
+  c_token (cl_conn cl) <> 0 /\ c_key (cl_conn cl) <> None /\ c_server (cl_conn cl) = true.
+Proof. exact C10_connected_have_token_proof. Qed.
+Print Assumptions C10_connected_have_token.
+
+(* corollary — the clause of the property: simultaneously connected clients carry distinct tokens *)
+Theorem C10_connected_tokens_distinct : forall h e g bl ins,
+  let s := fst (srv_life h e g bl ins) in
+  NoDup (map (fun cl => c_token (cl_conn cl)) (s_conns s)) /\
+  Forall (fun cl => c_token (cl_conn cl) <> 0) (s_conns s).
+Proof. exact C10_connected_tokens_distinct_proof. Qed.
+Print Assumptions C10_connected_tokens_distinct.
 
 (* ---------- non-vacuity: one complete life, with a handler that raises in every event ---------- *)
 Definition e1500 : env := {| e_max_payload := 1434; e_max_frag := 1024; e_max_frags := 8192 |}.
@@ -116,3 +191,54 @@ Example C10_wrong_token_no_connect :
          (hlog (snd (srv_life raising e1500 cfg0 [] (life 1073741830))))
   = [HStarting; HShutdown].
 Proof. vm_compute. reflexivity. Qed.
+
+(* ---------- non-vacuity of the run-level theorems ---------- *)
+(* the raising handler does log exception lines in that life, the stripped one logs none, and the
+   two traces differ: noexc really removes something *)
+Example C10_raise_logged :
+  existsb is_exc (snd (srv_life raising e1500 cfg0 [] (life 1073741829))) = true /\
+  existsb is_exc (snd (srv_life (strip raising) e1500 cfg0 [] (life 1073741829))) = false /\
+  length (snd (srv_life raising e1500 cfg0 [] (life 1073741829))) =
+    (length (snd (srv_life (strip raising) e1500 cfg0 [] (life 1073741829))) + 10)%nat.
+Proof. vm_compute. auto. Qed.
+
+(* two clients connected at the same time; os.urandom is forced to collide (5, 5, 6): the second
+   hello draws 5 again, get_token rejects it and takes 6 — both end in `connections` with
+   different non-zero tokens *)
+Definition A2 : addr := (8, 5001).
+Definition hello_at (a : addr) (key : Z) : witem :=
+  {| w_addr := a; w_raw := rawof (mkhdr 1 CLIENT_HELLO 3); w_body := Clear (be 2 1 ++ [x00]);
+     w_hs := [{| x_parse := 0; x_version_ok := true; x_token := 0; x_key := key; x_reply := [x01]; x_ecdh := 0 |}] |}.
+Definition chal_at (a : addr) (key tok : Z) : witem :=
+  let pl := be 2 2 ++ [x00] in
+  {| w_addr := a; w_raw := rawof (mkhdr 2 CHALLENGE_RESP (len pl));
+     w_body := Sealed key (mkhdr 2 CHALLENGE_RESP (len pl)) pl;
+     w_hs := [{| x_parse := 0; x_version_ok := true; x_token := tok; x_key := 0; x_reply := []; x_ecdh := 0 |}] |}.
+Definition two_clients : list sin :=
+  [at_ 0 [hello_at A1 77; hello_at A2 78] [5; 5; 6] false;
+   at_ 1 [chal_at A1 77 1073741829; chal_at A2 78 1073741830] [] false].
+
+Example C10_two_connected_distinct :
+  let s := fst (srv_life raising e1500 cfg0 [] two_clients) in
+  map (fun cl => (cl_id cl, cl_addr cl, c_token (cl_conn cl))) (s_conns s)
+    = [(0, A1, 1073741829); (1, A2, 1073741830)] /\ s_temp s = [].
+Proof. vm_compute. auto. Qed.
+
+(* why the pool-level statement speaks of NON-ZERO tokens: while a batch is being dispatched (after
+   D+U, before the sweep of the same iteration) two hellos that did not parse have left two objects
+   in temp_connections, both with token 0 and no key; they are never promoted, and the sweep of
+   the same iteration removes them (status DISCONNECTED) *)
+Definition bad_hello_at (a : addr) : witem :=
+  {| w_addr := a; w_raw := rawof (mkhdr 1 CLIENT_HELLO 3); w_body := Clear (be 2 1 ++ [x00]);
+     w_hs := [{| x_parse := 3; x_version_ok := true; x_token := 0; x_key := 0; x_reply := []; x_ecdh := 0 |}] |}.
+Example C10_temp_token_zero_shared :
+  let s := fst (srv_du raising e1500 (srv0 cfg0 []) (at_ 0 [bad_hello_at A1; bad_hello_at A2] [5; 6] false)) in
+  map (fun cl => (cl_id cl, c_token (cl_conn cl), c_key (cl_conn cl))) (s_temp s) = [(0, 0, None); (1, 0, None)]
+  /\ s_conns s = [] /\
+  s_temp (fst (srv_life raising e1500 cfg0 [] [at_ 0 [bad_hello_at A1; bad_hello_at A2] [5; 6] false])) = [].
+Proof. vm_compute. auto. Qed.
+
+(* the hypotheses of C10_token_invariant_step are satisfiable: the initial state satisfies both *)
+Example C10_token_invariant_initial :
+  Inv (srv0 cfg0 []) (fun _ => Some Fresh) /\ TInv (srv0 cfg0 []).
+Proof. exact (conj (Inv_srv0 cfg0 []) (TInv_srv0 cfg0 [])). Qed.
